@@ -329,8 +329,10 @@ func (s *Sim) Run(watchdog time.Duration) {
 				if still < 3 {
 					continue
 				}
-				// no yield for 150 ms: is the baton holder asleep in the Go runtime?
-				if info, ok := s.holderBlocked(); ok {
+				// no yield for 150 ms: is the baton holder asleep in the Go runtime? (after 5 s
+				// without a yield a holder that is still running counts too: it spins, outside the
+				// simulator's yield points, on something only another goroutine can change)
+				if info, ok := s.holderBlocked(still >= 100); ok {
 					if still < 5 {
 						continue // must still be so 100 ms later
 					}
@@ -389,7 +391,7 @@ var blockedStates = []string{"semacquire", "sync.WaitGroup.Wait", "sync.Cond.Wai
 	"sync.Mutex.Lock", "sync.RWMutex.RLock", "sync.RWMutex.Lock", "sleep", "IO wait"}
 
 // holderBlocked inspects the goroutine dump for the task that holds the baton.
-func (s *Sim) holderBlocked() (string, bool) {
+func (s *Sim) holderBlocked(spinningCounts bool) (string, bool) {
 	id := s.holderGoid()
 	if id == 0 {
 		return "", false
@@ -415,7 +417,10 @@ func (s *Sim) holderBlocked() (string, bool) {
 		}
 	}
 	if !blocked {
-		return "", false
+		if !spinningCounts || !(strings.HasPrefix(state, "running") || strings.HasPrefix(state, "runnable")) {
+			return "", false
+		}
+		state = "spinning without reaching a yield point for 5 s (" + state + ")"
 	}
 	// innermost frames, for the report
 	end := strings.Index(rest, "\n\n")
